@@ -67,15 +67,21 @@ def chain_depth(text, syms, stack=()):
     return d
 
 
+RAW_TEXTS = [r'"p\nq"', r'"a\\b"', r"'\t'", r'"\x41"', r'"\g<0>"', r'"\1z"', r'"c:\\new"']
+
+
 @st.composite
-def _symtab(draw, allow_cycle=True):
+def _symtab(draw, allow_cycle=True, raw_texts=False):
     names = draw(st.lists(st.sampled_from(SYMS), min_size=1, max_size=6, unique=True))
     if draw(st.integers(0, 3)) == 0:
         names.insert(draw(st.integers(0, len(names) - 1)), draw(st.sampled_from(NUMLIKE[:3])))
     syms = {}
     for i, n in enumerate(names):
         k = draw(st.integers(0, 10))
-        if k == 10:
+        if raw_texts and k in (2, 3) and draw(st.booleans()):
+            # replacement text with backslashes in it (a quoted string with escapes): it is inserted as it stands
+            v = draw(st.sampled_from(RAW_TEXTS))
+        elif k == 10:
             # the replacement is an identifier that merely contains symbol names (a constant of the program)
             v = draw(st.sampled_from([w for w in LOOKALIKE if len(w) > 1]))
         elif k < 4 or i == 0:
@@ -99,7 +105,7 @@ def _symtab(draw, allow_cycle=True):
 @st.composite
 def _cases(draw, tier):
     layer = draw(st.sampled_from(['api'] * 6 + ['cli']))
-    names, syms, cyc = draw(_symtab())
+    names, syms, cyc = draw(_symtab(raw_texts=(layer == 'api')))
     if layer == 'api':
         toks = []
         for _ in range(draw(st.integers(1, 8))):
@@ -136,6 +142,8 @@ def _cases(draw, tier):
     empty = None
     if draw(st.integers(0, 3)) == 0 and not cyc:
         empty = {'name': 'EMPTYSYM', 'src': draw(st.sampled_from(['config', 'cli', 'define']))}
+    if empty:
+        empty['style'] = draw(st.integers(0, 3))
     return {'layer': 'cli', 'incpad': draw(st.sampled_from([0, 0, 3, 9, 30])), 'empty': empty, 'syms': syms, 'order': names, 'srcs': srcs, 'dup': dup, 'looks': looks, 'shadow': shadow,
             'lines': lines, 'cycle': cyc}
 
@@ -306,8 +314,17 @@ def execute(case, ctx):
         if empty['src'] == 'define':
             src.append('#define ' + empty['name'])
         # a symbol without replacement text simply disappears from the line
-        src.append('.byte 7, 8 ' + empty['name'])
-        want += bytes([7, 8])
+        style = empty.get('style', 0)
+        if style == 1:
+            # nothing else on the line changes: the blanks inside a quoted string stay as they are
+            src.append(empty['name'] + ' .cstr "p  q   r"')
+            want += b'p  q   r\0'
+        elif style == 2:
+            src.append('.cstr "two  blanks" ' + empty['name'])
+            want += b'two  blanks\0'
+        else:
+            src.append('.byte 7, 8 ' + empty['name'])
+            want += bytes([7, 8])
     files = {'isa.json': json.dumps(cfg), 'main.asm': '\n'.join(src) + '\n'}
     files.update(extra_files)
     argv = ['compile', '-c', 'isa.json', '-o', 'out.bin'] + argv_syms + ['main.asm']
